@@ -240,6 +240,27 @@ Theorem C16_reflection : forall l out inp x,
 Proof. intros. split; [apply nodup_uid_iff|]. split; [apply mem_uid_iff|apply subset_b_iff]. Qed.
 Print Assumptions C16_reflection.
 
+(* custom selection callables in selection_types are called without the de-duplicating wrapper:
+   for EVERY well-behaved user function (distinct members of its input, at most as many as
+   requested) inheritance draws from prev + new, returns at most pop_size individuals and, on
+   individually repeat-free prev and new, no individual twice - because the steady-state merge
+   itself filters prev against new *)
+Theorem C16_inheritance_custom_contract : forall f sc pop_size prev new,
+  well_behaved f ->
+  let out := inherit_custom f sc pop_size prev new in
+  incl out (prev ++ new) /\ length out <= pop_size /\
+  (NoDup (map uid prev) -> NoDup (map uid new) -> NoDup (map uid out)) /\
+  inh_custom_holds_b sc pop_size prev new out = true.
+Proof.
+  intros f sc ps prev new W. destruct (inheritance_custom_contract f sc ps prev new W) as (A & B & C).
+  repeat split; auto. apply model_inh_custom_holds_b, W.
+Qed.
+Print Assumptions C16_inheritance_custom_contract.
+
+Theorem C16_custom_fn_well_behaved : forall c, well_behaved (custom_fn c).
+Proof. exact custom_fn_well_behaved. Qed.
+Print Assumptions C16_custom_fn_well_behaved.
+
 (* sessions: one operator instance whose shared parameters object is changed in place between
    calls.  The operators are functions of the parameters in force at the call (the model carries
    no state from call to call), so every call of every session satisfies its contract for the
@@ -302,4 +323,8 @@ Example ex_session :
   run_session [CallElitism (Build_eparams KeepNBest false 3 5) [] [e_b] [e_a; e_c];
                CallElitism (Build_eparams KeepNBest false 8 5) [] [e_b] [e_a; e_c]]
   = [Some [e_a; e_c]; Some [e_b; e_a]].
+Proof. vm_compute. reflexivity. Qed.
+(* a survivor (e_b is in prev and in new) with a truncation selection: taken once *)
+Example ex_custom_survivor :
+  inherit_custom (custom_fn TruncBest) SteadyState 3 [e_b; e_c] [e_b; e_a] = [e_b; e_a; e_c].
 Proof. vm_compute. reflexivity. Qed.
